@@ -43,13 +43,14 @@ def sortPairs (l : List (String × P)) : List (String × P) :=
 
 mutual
 /-- `AtLeast.negate` (with the D1 repair: atoms are grouped only for value 1 and
-    non-negative atoms, wrapped one by one when boolean, otherwise no inward push) -/
+    non-negative atoms, wrapped one by one when boolean, otherwise no inward push; and the F05b repair: a node whose own
+    variable is fixed to a constant is negated into one fixed to the opposite constant) -/
 def negate : P → P
   | .leaf i b => .leaf i b
   | .node i b s v ks m =>
       let ks0 := sortById ks
       let nid := if m.gen then genId ks0 (1 - v) (some (-s)) else i
-      let nb : Bnd := if m.gen then ⟨0, 1⟩ else b
+      let nb : Bnd := if m.gen then ⟨0, 1⟩ else if b.lo = b.hi then ⟨1 - b.hi, 1 - b.lo⟩ else b
       let nm : Meta := { gen := m.gen }
       let atoms := ks0.filter (·.isLeaf)
       let ncomp := (ks.filter (fun k => !k.isLeaf)).length
